@@ -11,6 +11,7 @@ LEAN_HELPERS = ['MV.Lemmas.Roman', 'MV.Model.Roman', 'MV.Model.Pitch', 'MV.Model
                 'MV.Model.Types']
 DRIVERS = ['C15']
 GEN = ['Tables', 'Library', 'Roman']
+SRC_TIE = ['SrcRoman']   # py2lean source images of the clock (duration, set_time_signature, set_bar_number, set_current_beat, Beat.get_real_value, the element parse methods, add_chord) and of analyze_one_chord proved equal to the model (MV/Props/TieSrcRoman.lean)
 RULE = ('roman: generated annotations (10 time signatures, first bar m0/m1/m5/other, indented or not, with or '
         'without a time-signature line, pickups, skipped bar numbers, `var` lines, repeated bars `mA = mB` and '
         '`mA-B = mC-D`, key changes, figures drawn from diatonic / applied / altered / special / invalid pools) plus '
@@ -425,6 +426,9 @@ def correspondence(ctx):
                       'impl': frac_str(q.limit_denominator(mx)), 'input': {'n': q.numerator, 'd': q.denominator, 'max': mx},
                       'bucket': f'limit max={mx if mx in (1, 8, 1000) else "other"}', 'nontrivial': q.denominator > mx})
     ctx.compare('limit', 'C15', cases)
+    # --- source tie: kernel-level streams of the translated clock functions (DESIGN §9.6)
+    import srctie
+    srctie.run(ctx, SRC_TIE)
 
 # ----------------------------------------------------------------------------- oracles (the property itself)
 
